@@ -21,4 +21,6 @@ LayoutSafeAscii == Inv(1)
 LayoutSafeUnicode == Inv(4)
 \* a window that is not admissible for ASCII is not admissible for code points either (monotonicity used by the walk)
 WidthMonotone == Admissible(sh, sn, 4) => Admissible(sh, sn, 1)
+\* every needle length the matrix admits (thorough tier: NeedleLens <- AllNeedleLens)
+AllNeedleLens == 1..2048
 =============================================================================
